@@ -9,7 +9,7 @@ from __future__ import annotations
 
 from mpmath import mpf
 
-from vcheck import catalog, gen, obs, opcheck, refmodel as R
+from vcheck import catalog, gen, mpbackend, obs, opcheck, refmodel as R
 from vcheck.catalog import OPS
 from vcheck.opcheck import CART, CallRaised
 
@@ -238,8 +238,65 @@ def check_sub(cell, case, ctx):
             ctx.fail("value" + q, f"{op.name} {variant}: {opcheck.fmt(x1)} != all-Cartesian {opcheck.fmt(x0)}; a={opcheck.fmt(a)} "
                      f"b={opcheck.fmt(b) if b else None} scalars={s_in}", op=op.name, variant=variant, backend=backend)
             return
+    if db and da == db and op.name in NULL_OK and (sb[0] == "rhophi" or (db >= 3 and sb[1] != "z")):
+        if not _null_operand(ctx, op, cell, case, a, v0, v1, sb, db, mp_, s_lib, tol, backend, variant):
+            return
     if nontrivial:
         ctx.nontrivial(key=case, sample=case)
+
+
+# operations whose value is defined when the second operand is the null vector
+NULL_OK = ("dot", "is_parallel", "is_antiparallel", "is_perpendicular", "add", "subtract")
+
+
+def _null_operand(ctx, op, cell, case, a, v0, v1, sb, db, mp_, s_lib, tol, backend, variant):
+    """The null vector has many polar representations (rho = 0 with any phi, any theta / eta): every one of them is the null
+    vector, and an operation with it gives what the all-Cartesian call with (0, 0, ...) gives.  The stored angles are the
+    first operand's own direction - the representation a cancelled magnitude would expose at once."""
+    import mpmath
+
+    phi_a = mpmath.atan2(a[1], a[0])
+    rho_a = mpmath.sqrt(a[0] ** 2 + a[1] ** 2)
+    stored = [mpf(0), mpf(0)] if sb[0] == "xy" else [mpf(0), phi_a]
+    if db >= 3:
+        if sb[1] == "z":
+            stored.append(mpf(0))
+        elif sb[1] == "theta":
+            stored.append(mpmath.atan2(rho_a, a[2]) if (rho_a or a[2]) else mpf(1))
+        else:
+            stored.append(mpmath.asinh(a[2] / rho_a) if rho_a else mpf(0))
+    if db == 4:
+        stored.append(mpf(0))
+    if not mp_:
+        stored = [float(x) for x in stored]
+    try:
+        w1n = mpbackend.make(sb, tuple(stored), False, mp_)
+        w0n = mpbackend.make(CART[db], tuple((mpf(0) if mp_ else 0.0) for _ in range(db)), False, mp_)
+        r0 = opcheck.call(op, v0, w0n, s_lib)
+        r1 = opcheck.call(op, v1, w1n, s_lib)
+    except CallRaised as e:
+        if mp_ and isinstance(e.exc, ZeroDivisionError):
+            return True
+        ctx.fail("exception", f"{op.name} {variant} with the null vector stored as {R.sysname(sb)}{opcheck.fmt(stored)} raised {e.exc!r}",
+                 op=op.name, variant=variant, backend=backend)
+        return False
+    ctx.evaluation()
+    k0, k1 = opcheck.read_result(op, r0), opcheck.read_result(op, r1)
+    scale = R.scale_of(a)
+    if k0[0] == "vec":
+        ok = len(k0[3]) == len(k1[3]) and (opcheck.vec_close(k1[3], k0[3], tol, scale) or opcheck.vec_equiv(k1[1], k1[2], k0[3], tol, scale))
+    elif k0[0] == "bool":
+        ok = k0[1] == k1[1]
+    else:
+        ok = opcheck.close(k0[1], k1[1], tol, scale * scale)
+    if not ok:
+        ctx.fail("null_operand", f"{op.name} {variant}: with the null vector stored as {R.sysname(sb)}{opcheck.fmt(stored)} the result is "
+                 f"{opcheck.fmt(k1[-1]) if k1[0] != 'bool' else k1[1]} but the all-Cartesian call with the null vector gives "
+                 f"{opcheck.fmt(k0[-1]) if k0[0] != 'bool' else k0[1]}; a={opcheck.fmt(a)} scalars={case['s']}", op=op.name, variant=variant,
+                 backend=backend)
+        return False
+    ctx.stratum("null_second_operand")
+    return True
 
 
 def extra_coverage(tier, results):
